@@ -131,6 +131,38 @@ func appendSites(f *ssa.Function, acc ssa.Value) []*ssa.Call {
 						grow(st.Val)
 					}
 				}
+				// a variable captured by a local function literal: what the literal assigns to it
+				if pr := core.Active; pr != nil && al.Heap {
+					for _, a := range al.Parent().AnonFuncs {
+						for _, fv := range a.FreeVars {
+							if pr.Binding(fv) != ssa.Value(al) {
+								continue
+							}
+							for _, ref := range *fv.Referrers() {
+								if st, ok := ref.(*ssa.Store); ok && st.Addr == ssa.Value(fv) {
+									grow(st.Val)
+								}
+							}
+						}
+					}
+				}
+			}
+			if fv, ok := x.X.(*ssa.FreeVar); ok {
+				// inside the literal: the captured accumulator itself
+				if pr := core.Active; pr != nil {
+					if b, ok := pr.Binding(fv).(*ssa.Alloc); ok {
+						for _, ref := range *b.Referrers() {
+							if st, ok := ref.(*ssa.Store); ok && st.Addr == ssa.Value(b) {
+								grow(st.Val)
+							}
+						}
+					}
+					for _, ref := range *fv.Referrers() {
+						if st, ok := ref.(*ssa.Store); ok && st.Addr == ssa.Value(fv) {
+							grow(st.Val)
+						}
+					}
+				}
 			}
 		}
 	}
